@@ -34,6 +34,22 @@ def _slice(text):
     return text, None, None
 
 
+def status_write_latch(ctx, rid, fxt=None):
+    """Writable CSRStatus (shared with C15: EventManager.pending): `r` takes the bus data only in the cycle of the write strobe and
+    `re` is that strobe one cycle later -- `re & r[i]` then means "a one was written to bit i".  Without the strobe on the latch `r`
+    follows whatever is on the bus, and a later / unrelated access clears events that nobody acknowledged."""
+    if fxt is None:
+        fxt = FX(ctx, CSR, cls="CSRStatus", entries=("__init__", "do_finalize"))
+    wr = [a for a in fxt.find(domain="sync") if a.t.startswith("self.r[")]
+    ok = len(wr) == 1 and wr[0].t == "self.r[i * busword:i * busword + nbits]" and wr[0].v == "sc.r" and \
+        q.EQ(wr[0], B.A("sc.re")) and ("read_only", False) in wr[0].pyguards
+    ctx.ob(rid, CSR, "CSRStatus.do_finalize", "writable status: word i written through the same slice under its strobe", ok,
+           "" if ok else f"{[(a.t, a.v, a.gtext()) for a in wr]}: the written value is not latched under the write strobe", wr[0].line if wr else 0)
+    re_ = fxt.find(domain="sync", target="self.re")
+    ok = len(re_) == 1 and re_[0].v == "sc.re" and not re_[0].guards
+    ctx.ob(rid, CSR, "CSRStatus.do_finalize", "re = the write strobe, one cycle later", ok, "" if ok else f"{[(a.v, a.gtext()) for a in re_]}")
+
+
 def run(ctx):
     ctx.rule("R1", "bank: re/we only under sel & (adr[:k] == i) (re <- bus.we, we <- bus.re), r <- dat_w[:size]; dat_r "
                    "zero first then selected word; sel = adr[k:] == address with the same k; memory window alike", min_sites=14)
@@ -145,16 +161,22 @@ def run(ctx):
     dev = [a for a in fxs.find(domain="sync", target="self.storage") if a.v == "self.dat_w"]
     ok = len(dev) == 1 and q.EQ(dev[0], B.A("self.we")) and ("write_from_dev", True) in dev[0].pyguards
     ctx.ob("R2", CSR, "CSRStorage.__init__", "device write: separate assignment under self.we", ok, "" if ok else f"{[(a.v, a.gtext()) for a in dev]}")
+    # a bus write is never lost: among the writers of the storage register the bus side comes last (in Migen the last assignment
+    # wins), so a device-side write that coincides with a bus write yields to it
+    writers = [a for a in fxs.find(domain="sync") if a.t == "self.storage" or a.t.startswith("self.storage[")]
+    bus = [a for a in writers if "sc.r" in a.v]
+    other = [a for a in writers if "sc.r" not in a.v]
+    ok = bool(bus) and all(o.order < b.order for o in other for b in bus)
+    late = [o for o in other if any(o.order >= b.order for b in bus)]
+    ctx.ob("R2", CSR, "CSRStorage", "bus write wins: no other writer of storage is placed after the bus writers", ok,
+           "" if ok else f"`{late[0].t} <= {late[0].v}` (under {late[0].gtext()}) is assigned after the bus write and overrides it: a bus write that "
+                         f"coincides with it changes nothing" if late else "no bus writer found", late[0].line if late else 0)
     fxt = FX(ctx, CSR, cls="CSRStatus", entries=("__init__", "do_finalize"))
     fail_closed(ctx, fxt, "CSRStatus")
     rd = fxt.find(domain="comb", target="sc.w")
     ok = len(rd) == 1 and rd[0].v == "self.status[i * busword:i * busword + nbits]"
     ctx.ob("R2", CSR, "CSRStatus.do_finalize", "word i reads status[i*busword : +nbits]", ok, "" if ok else f"{[a.v for a in rd]}")
-    wr = [a for a in fxt.find(domain="sync") if a.t.startswith("self.r[")]
-    ok = len(wr) == 1 and wr[0].t == "self.r[i * busword:i * busword + nbits]" and wr[0].v == "sc.r" and \
-        q.EQ(wr[0], B.A("sc.re")) and ("read_only", False) in wr[0].pyguards
-    ctx.ob("R2", CSR, "CSRStatus.do_finalize", "writable status: word i written through the same slice under its strobe", ok,
-           "" if ok else f"{[(a.t, a.v, a.gtext()) for a in wr]}")
+    status_write_latch(ctx, "R2", fxt)
     we = fxt.find(domain="comb", target="self.we")
     ok = len(we) == 1 and we[0].v == "sc.we" and not we[0].loops
     ctx.ob("R2", CSR, "CSRStatus.do_finalize", "we = read strobe of the last iterated word", ok, "" if ok else f"{[a.v for a in we]}")
